@@ -67,7 +67,7 @@ type replaySummary struct {
 	DriftSamples []string       `json:"drift_samples"`
 }
 
-const watchdog = 5 * time.Second
+const watchdog = 20 * time.Second
 
 // guarded runs f under recover and a watchdog.
 func guarded(f func() (interface{}, error)) Obs {
